@@ -368,6 +368,7 @@ def run(chk):
     clones.rule_tables(chk, 'N5', ('mgr',), floor=20)
     clones.rule_unreachable(chk, 'U1', ('mgr',), floor=20)
     clones.rule_insert_ladders(chk, 'N6', ('mgr',), floor=100)
+    clones.rule_progressions(chk, 'N10')
     from . import twins
     twins.rule_common_flag(chk, P, 'Z1', floor=6)
     run_lanes(chk, P)
